@@ -20,8 +20,8 @@ EXPLANATION = ('For every reachable function the interpreter records each MIR As
                'and in write_to_slice / write_cols_to_slice no panic site may be reachable after a write to the destination (the documented '
                'length panic precedes any store, R-ATOMIC).')
 
-CONFIGS_QUICK = ['sse2', 'scalar', 'coresimd', 'neon', 'wasm32']
-CONFIGS_THOROUGH = ['sse2', 'sse2-rel', 'sse2-fma', 'sse41', 'scalar', 'coresimd', 'libm', 'neon', 'wasm32']
+CONFIGS_QUICK = ['sse2', 'sse2-dbg', 'scalar', 'coresimd', 'neon', 'wasm32']
+CONFIGS_THOROUGH = ['sse2', 'sse2-dbg', 'sse2-rel', 'sse2-fma', 'sse41', 'scalar', 'coresimd', 'libm', 'neon', 'wasm32']
 
 SLICE_FNS = {'from_slice', 'write_to_slice', 'from_cols_slice', 'write_cols_to_slice'}
 INDEX_FNS = {'index', 'index_mut', 'col', 'col_mut', 'row', 'test', 'set', 'from_mat3_minor', 'from_mat4_minor',
@@ -55,6 +55,10 @@ def classify(root_name, it, site, int_fn):
     """-> (allowed: bool, why)"""
     fname = it.get('name') or root_name.rsplit('::', 1)[-1]
     k = site.kind
+    if k in ('assert:misaligned', 'assert:null_deref', 'assert:null', 'assert:invalid_enum'):
+        # checks rustc inserts in debug builds in front of raw-pointer dereferences / transmutes: they guard against undefined behaviour,
+        # the accesses themselves are covered by R-BOUNDS (size and alignment of the destination)
+        return (True, 'compiler-inserted debug check of an unsafe operation')
     if k.startswith('prim:'):
         return (int_fn, 'primitive integer operation panic')
     if k in ('assert:overflow', 'assert:overflow_neg', 'assert:div_zero', 'assert:rem_zero'):
@@ -242,6 +246,10 @@ def run(ctx):
                             bbad.append({'access': what, 'in_fn': fn, 'line': line, 'bytes': [off, off + width],
                                          'checked_len_elems': lb, 'elem_size': stride,
                                          'problem': 'access to slice argument %d not covered by a preceding length check' % argi})
+                        ealign = (F.types[pt['elem']].get('al') if pt.get('elem') is not None else None) or stride
+                        if align > 1 and align > ealign:
+                            bbad.append({'access': what, 'in_fn': fn, 'line': line, 'required_align': align, 'slice_element_align': ealign,
+                                         'problem': 'aligned %d-byte access through slice argument %d, whose elements are only %d-byte aligned (a sub-slice need not be more aligned)' % (align, argi, ealign)})
                     else:
                         if pt['sz'] is not None and (off < 0 or off + width > pt['sz']):
                             bbad.append({'access': what, 'in_fn': fn, 'line': line, 'bytes': [off, off + width], 'object_size': pt['sz'],
